@@ -67,6 +67,7 @@ REGION_LL = (5.0, 46.0, 14.0, 55.0)
 SIG_COMBINED_RES = 'C17/gate/res-range/combined-layers'
 SIG_PREFERRED_ALIAS = 'C17/wms/srs-alias-of-listed/reprojected'
 SIG_FWD_VALUE = 'C17/wms/forwarded-value-altered'
+SIG_QUERY_RACE = 'C17/wms/srs-alias-of-listed/same-srs/shared-query-race'
 
 MERC = 20037508.342789244
 FAMILIES = {
@@ -731,6 +732,8 @@ def apply_exclusions(spec, stats):
       although their resolution ranges differ are put on different servers;
     * preferred-alias: a preferred_src_proj entry that is an alias (900913/3857) of a supported_srs entry of some
       source without being listed by that source itself is dropped;
+    * shared-query-race: sources of one cache (queried concurrently with one shared MapQuery) that list different
+      alias codes (900913 / 3857) of the same SRS get the same code;
     * forwarded-value: forward_req_params entries naming a WMS dimension (TIME / ELEVATION / DIM_*) are written in
       lower case and all other entries in upper case (a dimension in any other spelling, or one parameter spelled
       differently by two sources of the same request, makes MapProxy send the value twice)."""
@@ -761,6 +764,24 @@ def apply_exclusions(spec, stats):
                     spec['preferred'][key] = kept
                 else:
                     del spec['preferred'][key]
+    if SIG_QUERY_RACE in open_sigs:
+        for c in all_caches(spec):
+            srcs = [by[n] for n in c['sources'] if n in by and by[n].get('supported_srs')]
+            for a in srcs:
+                for b in srcs:
+                    if a is b:
+                        continue
+                    a_codes = [x.upper() for x in a['supported_srs']]
+                    new_list = []
+                    for y in b['supported_srs']:
+                        mine = [x for x in a['supported_srs'] if canon(x) == canon(y)]
+                        if mine and y.upper() not in a_codes:
+                            y = mine[0]
+                            counts['cache-sources-listing-different-alias-codes-of-one-SRS->same-code'] = \
+                                counts.get('cache-sources-listing-different-alias-codes-of-one-SRS->same-code', 0) + 1
+                        if y not in new_list:
+                            new_list.append(y)
+                    b['supported_srs'] = new_list
     if SIG_FWD_VALUE in open_sigs:
         for src in spec['wms_sources']:
             fixed = [k.lower() if _is_wms_dimension(k) else k.upper() for k in (src.get('fwd') or [])]
@@ -969,6 +990,47 @@ class Probe(object):
         return False
 
 
+class Rendezvous(object):
+    """Schedule control for one committed regression case ('schedule': 'retrieve-rendezvous'): the first thread
+    that enters WMSClient.retrieve waits until a second one has entered it.  Generated cases never use it.  The
+    5 s bound only ends a wait that can never be satisfied (counted as inconclusive, never a verdict)."""
+
+    def __init__(self, mode, stats):
+        self.mode = mode
+        self.stats = stats
+        self.orig = None
+
+    def __enter__(self):
+        if self.mode != 'retrieve-rendezvous':
+            return self
+        from mapproxy.client.wms import WMSClient
+        self.orig = orig = WMSClient.retrieve
+        lock = threading.Lock()
+        state = {'first': None, 'ev': threading.Event()}
+        stats = self.stats
+
+        def retrieve(client, query, format):
+            with lock:
+                me = state['first'] is None
+                if me:
+                    state['first'] = client
+            if me:
+                if not state['ev'].wait(5.0):
+                    stats.inconclusive['rendezvous-partner-never-arrived'] += 1
+            else:
+                state['ev'].set()
+            return orig(client, query, format)
+        WMSClient.retrieve = retrieve
+        return self
+
+    def __exit__(self, *exc):
+        if self.orig is not None:
+            from mapproxy.client.wms import WMSClient
+            WMSClient.retrieve = self.orig
+            self.orig = None
+        return False
+
+
 # ------------------------------------------------------------------------------------------------
 # oracle
 
@@ -987,6 +1049,16 @@ def contains_bbox(ext, b, tol):
     return ext[0] - tol <= b[0] and ext[1] - tol <= b[1] and ext[2] + tol >= b[2] and ext[3] + tol >= b[3]
 
 
+def sibling_lists_code(spec, name, code):
+    for c in all_caches(spec):
+        if name in c['sources'] and len(c['sources']) > 1:
+            for other in c['sources']:
+                o = source_by_name(spec, other)
+                if other != name and o and code.upper() in [x.upper() for x in (o.get('supported_srs') or [])]:
+                    return True
+    return False
+
+
 def judge_map_call(call, rec, spec, req, case):
     out = []
     info = call.info
@@ -1003,7 +1075,11 @@ def judge_map_call(call, rec, spec, req, case):
             raise core.HarnessError('upstream WMS call for unknown layer %r: %s' % (name, call.url))
         if src.get('supported_srs') and srs not in [c.upper() for c in src['supported_srs']]:
             alias = canon(srs) in [canon(c) for c in src['supported_srs']]
-            out.append(V('wms/%s/%s' % ('srs-alias-of-listed' if alias else 'srs-not-listed', how),
+            ctx = how
+            if alias and how == 'same-srs' and sibling_lists_code(spec, name, srs):
+                # the source shares a cache (= one MapQuery object, several threads) with a source that lists this code
+                ctx = how + '/shared-query-race'
+            out.append(V('wms/%s/%s' % ('srs-alias-of-listed' if alias else 'srs-not-listed', ctx),
                          'source %s (supported_srs %r) was asked in %s: %s' % (name, src['supported_srs'], srs, call.url), case))
         if src.get('supported_formats'):
             fmt = mime_of(info.get('format'))
@@ -1151,7 +1227,7 @@ def run_case(case, stats, record=True, exclude=True):
             raise core.HarnessError('generated configuration rejected: %r\n%r' % (e, conf))
         up = Upstream(None)
         register_upstream(up, spec)
-        with up, Probe(up) as probe:
+        with up, Probe(up) as probe, Rendezvous(case.get('schedule'), stats):
             for req in case['requests']:
                 up.clear()
                 probe.clear()
